@@ -13,6 +13,8 @@ type StatusLabel struct {
 	Source *mesos.TaskStatus_Source
 	UUID   bool
 	Bare   bool // no agent id, no executor id, no labels
+	// OmitAgent / OmitExecutor leave out one id only (labels stay)
+	OmitAgent, OmitExecutor bool
 }
 
 // SendStatus pushes an UPDATE for a launched task with exactly this label, whatever the simulated
@@ -38,6 +40,12 @@ func (s *Sim) SendStatus(taskId string, st mesos.TaskState, l StatusLabel) bool 
 			status.ExecutorID = &lt.Info.Executor.ExecutorID
 		}
 		status.Labels = lt.Info.Labels
+		if l.OmitAgent {
+			status.AgentID = nil
+		}
+		if l.OmitExecutor {
+			status.ExecutorID = nil
+		}
 	}
 	if l.UUID {
 		status.UUID = nextUUID()
